@@ -428,3 +428,182 @@ Proof.
   - rewrite hdr_bytes_length in Hlen |- *. rewrite be_bytes2, !app_length in Hlen. cbn [length] in Hlen. lia.
   - rewrite hdr_bytes_length, !app_length. lia.
 Qed.
+
+(* -------------------------------------------------------- c26_short_dropped *)
+
+Lemma idx_some : forall (b : list N) k, (N.to_nat k < length b)%nat -> exists x, idx b k = Some x.
+Proof.
+  intros b k Hk. unfold idx. destruct (nth_error b (N.to_nat k)) as [x|] eqn:E; [now exists x|].
+  apply nth_error_None in E. lia.
+Qed.
+
+Lemma short_dropped : forall h payload padding tail ppt pssrc,
+  hdr_ok h -> pad_ok h payload padding -> (length payload < 2)%nat ->
+  N.of_nat (length (packet h payload padding)) < 65536 ->
+  rtx_unwrap ppt pssrc (packet h payload padding ++ tail)
+             (N.of_nat (length (packet h payload padding))) = Ok None.
+Proof.
+  intros h payload padding tail ppt pssrc Hok Hpad Hshort Hlen.
+  pose proof Hok as (Hver & Hcc & _).
+  unfold rtx_unwrap.
+  set (b0 := 64 * h_ver h + 32 * bN (h_pad h) + 16 * bN (has_ext h) + h_cc h).
+  assert (E0 : idx (packet h payload padding ++ tail) 0 = Some b0).
+  { unfold packet. rewrite <- app_assoc, hdr_layout. reflexivity. }
+  rewrite E0. cbn [of_opt rbind].
+  pose proof (packet_length h payload padding) as Hpl.
+  assert (Hhl : rtx_header_length (packet h payload padding ++ tail) b0
+                = Ok (N.of_nat (length (hdr_bytes h)))).
+  { unfold packet. rewrite <- app_assoc. apply header_length_ok; [exact Hok|lia]. }
+  rewrite Hhl. cbn [rbind].
+  destruct (list_eq_dec N.eq_dec (payload ++ padding) []) as [Hnil|Hne].
+  - (* no body at all: whatever b[i-1] is, nothing is left for an OSN *)
+    apply app_eq_nil in Hnil. destruct Hnil as [-> ->].
+    unfold rtx_padding_length.
+    destruct (0 <? N.land b0 32).
+    + pose proof (hdr_bytes_length h) as Hh.
+      replace (N.of_nat (length (packet h [] [])) =? 0) with false
+        by (symmetry; apply N.eqb_neq; lia).
+      destruct (idx_some (packet h [] [] ++ tail) (N.of_nat (length (packet h [] [])) - 1)) as [x Ex].
+      { rewrite app_length. lia. }
+      rewrite Ex. cbn [of_opt rbind].
+      replace (Z.of_N (N.of_nat (length (packet h [] []))) - Z.of_N (N.of_nat (length (hdr_bytes h))) - Z.of_N x <? 2)%Z
+        with true by (symmetry; apply Z.ltb_lt; cbn [length] in Hpl; lia).
+      reflexivity.
+    + cbn [rbind].
+      replace (Z.of_N (N.of_nat (length (packet h [] []))) - Z.of_N (N.of_nat (length (hdr_bytes h))) - Z.of_N 0 <? 2)%Z
+        with true by (symmetry; apply Z.ltb_lt; cbn [length] in Hpl; lia).
+      reflexivity.
+  - rewrite padding_length_ok by assumption. cbn [rbind].
+    match goal with |- context [Z.ltb ?x 2] => replace (Z.ltb x 2) with true by (symmetry; apply Z.ltb_lt; lia) end.
+    reflexivity.
+Qed.
+
+(* ------------------------------------------------------------ c26_no_panic *)
+
+Lemma upd_some : forall (b : list N) k v, (N.to_nat k < length b)%nat ->
+  exists b', upd b k v = Some b' /\ length b' = length b.
+Proof.
+  intros b k v Hk. unfold upd.
+  replace (Nat.ltb (N.to_nat k) (length b)) with true by (symmetry; apply Nat.ltb_lt; exact Hk).
+  eexists; split; [reflexivity|].
+  rewrite app_length. cbn [length]. rewrite firstn_length, skipn_length. lia.
+Qed.
+
+Lemma sl_some : forall (b : list N) lo hi, (N.to_nat lo <= N.to_nat hi)%nat -> (N.to_nat hi <= length b)%nat ->
+  exists l, sl b lo hi = Some l /\ length l = (N.to_nat hi - N.to_nat lo)%nat.
+Proof.
+  intros b lo hi H1 H2. unfold sl, slice.
+  replace (Nat.leb (N.to_nat lo) (N.to_nat hi)) with true by (symmetry; apply Nat.leb_le; exact H1).
+  replace (Nat.leb (N.to_nat hi) (length b)) with true by (symmetry; apply Nat.leb_le; exact H2).
+  cbn [andb]. eexists; split; [reflexivity|].
+  rewrite firstn_length, skipn_length. lia.
+Qed.
+
+Lemma put_u32_some : forall (b : list N) lo v, (N.to_nat lo + 4 <= length b)%nat ->
+  exists b', put_u32 b lo v = Some b' /\ length b' = length b.
+Proof.
+  intros b lo v H. unfold put_u32.
+  destruct (sl_some b lo (lo + 4)) as (l & El & _); [lia|lia|].
+  rewrite El. eexists; split; [reflexivity|].
+  rewrite !app_length, firstn_length, skipn_length. cbn [be_bytes le_bytes rev app length]. lia.
+Qed.
+
+Lemma copy_within_some : forall (b : list N) dlo dhi slo shi,
+  (N.to_nat dlo <= N.to_nat dhi)%nat -> (N.to_nat dhi <= length b)%nat ->
+  (N.to_nat slo <= N.to_nat shi)%nat -> (N.to_nat shi <= length b)%nat ->
+  exists b', copy_within b dlo dhi slo shi = Some b' /\ length b' = length b.
+Proof.
+  intros b dlo dhi slo shi H1 H2 H3 H4. unfold copy_within.
+  destruct (sl_some b dlo dhi H1 H2) as (dst & Ed & Ld).
+  destruct (sl_some b slo shi H3 H4) as (src & Es & Ls).
+  rewrite Ed, Es. eexists; split; [reflexivity|].
+  rewrite !app_length, !firstn_length, skipn_length. lia.
+Qed.
+
+Lemma header_length_total : forall (b : list N) b0, (76 <= length b)%nat ->
+  exists hl, rtx_header_length b b0 = Ok hl /\ hl < 65536.
+Proof.
+  intros b b0 Hb. unfold rtx_header_length.
+  pose proof (land15_lt b0) as Hcc.
+  set (cc := N.land b0 15) in *.
+  assert (Ehl0 : u16 (u8 (12 + u8 (4 * cc))) = 12 + 4 * cc).
+  { unfold u16, u8. rewrite (N.mod_small (4 * cc)) by lia.
+    rewrite (N.mod_small (12 + 4 * cc) 256) by lia. apply N.mod_small. lia. }
+  rewrite Ehl0.
+  destruct (0 <? N.land b0 16).
+  - replace (u16 (12 + 4 * cc + 2)) with (12 + 4 * cc + 2) by (unfold u16; rewrite N.mod_small; lia).
+    replace (u16 (12 + 4 * cc + 4)) with (12 + 4 * cc + 4) by (unfold u16; rewrite N.mod_small; lia).
+    destruct (sl_some b (12 + 4 * cc + 2) (12 + 4 * cc + 4)) as (l & El & Ll); [lia|lia|].
+    rewrite El.
+    destruct l as [|x [|y [|z l]]]; cbn [length] in Ll; try lia.
+    eexists; split; [reflexivity|]. unfold u16. apply N.mod_lt. discriminate.
+  - eexists; split; [reflexivity|lia].
+Qed.
+
+Lemma padding_length_total : forall (b : list N) b0 i,
+  1 <= i -> (N.to_nat i <= length b)%nat ->
+  exists p, rtx_padding_length b b0 i = Ok p.
+Proof.
+  intros b b0 i Hi1 Hi2. unfold rtx_padding_length.
+  destruct (0 <? N.land b0 32); [|now exists 0].
+  replace (i =? 0) with false by (symmetry; apply N.eqb_neq; lia).
+  destruct (idx_some b (i - 1)) as [x Ex]; [lia|].
+  rewrite Ex. now exists x.
+Qed.
+
+Lemma rewrite_total : forall ppt pssrc (b : list N) i hl,
+  (76 <= length b)%nat -> (N.to_nat i <= length b)%nat -> hl < 65536 -> hl + 2 <= i ->
+  exists o, rtx_rewrite ppt pssrc b i hl = Ok o.
+Proof.
+  intros ppt pssrc b i hl Hb Hi Hhl Hroom. unfold rtx_rewrite.
+  destruct (idx_some b 1) as [b1 E1]; [lia|]. rewrite E1. cbn [of_opt rbind].
+  destruct (sl_some b 2 4) as (s24 & E24 & _); [lia|lia|]. rewrite E24. cbn [of_opt rbind].
+  destruct (sl_some b 8 12) as (s812 & E812 & _); [lia|lia|]. rewrite E812. cbn [of_opt rbind].
+  destruct (upd_some b 1 (N.lor (N.land b1 128) (u8 ppt))) as (bA & EA & LA); [lia|].
+  rewrite EA. cbn [of_opt rbind].
+  destruct (idx_some bA hl) as [v2 Ev2]; [lia|]. rewrite Ev2. cbn [of_opt rbind].
+  destruct (upd_some bA 2 v2) as (bB & EB & LB); [lia|]. rewrite EB. cbn [of_opt rbind].
+  assert (H1 : u16 (hl + 1) <= hl + 1) by (unfold u16; apply N.mod_le; discriminate).
+  destruct (idx_some bB (u16 (hl + 1))) as [v3 Ev3]; [lia|]. rewrite Ev3. cbn [of_opt rbind].
+  destruct (upd_some bB 3 v3) as (bC & EC & LC); [lia|]. rewrite EC. cbn [of_opt rbind].
+  destruct (put_u32_some bC 8 pssrc) as (bD & ED & LD); [lia|]. rewrite ED. cbn [of_opt rbind].
+  assert (H2 : u16 (hl + 2) <= hl + 2) by (unfold u16; apply N.mod_le; discriminate).
+  destruct (copy_within_some bD hl (i - 2) (u16 (hl + 2)) i) as (bE & EE & LE); [lia|lia|lia|lia|].
+  rewrite EE. cbn [of_opt rbind].
+  destruct (sl_some bE 0 (i - 2)) as (pkt & Ep & _); [lia|lia|]. rewrite Ep. cbn [of_opt rbind].
+  eexists; reflexivity.
+Qed.
+
+Lemma no_panic : forall ppt pssrc (b : list N) i,
+  (76 <= length b)%nat -> 1 <= i -> (N.to_nat i <= length b)%nat ->
+  rtx_unwrap ppt pssrc b i <> Panic.
+Proof.
+  intros ppt pssrc b i Hb Hi1 Hi2. unfold rtx_unwrap.
+  destruct (idx_some b 0) as [b0 E0]; [lia|]. rewrite E0. cbn [of_opt rbind].
+  destruct (header_length_total b b0 Hb) as (hl & Ehl & Hhl). rewrite Ehl. cbn [rbind].
+  destruct (padding_length_total b b0 i Hi1 Hi2) as (p & Ep). rewrite Ep. cbn [rbind].
+  destruct (Z.of_N i - Z.of_N hl - Z.of_N p <? 2)%Z eqn:Echeck; [discriminate|].
+  apply Z.ltb_ge in Echeck.
+  destruct (rewrite_total ppt pssrc b i hl Hb Hi2 Hhl) as (o & Eo); [lia|].
+  rewrite Eo. cbn [rbind]. discriminate.
+Qed.
+
+(* the domain bound is tight: a zero-length read with a stale padding bit would
+   index b[-1] (unreachable behind SRTP, which only delivers packets whose
+   12-byte header parsed) *)
+Lemma zero_length_read_panics :
+  rtx_unwrap 96 1 (32 :: repeat 0 75) 0 = Panic.
+Proof. reflexivity. Qed.
+
+(* a non-trivial header for the satisfiability examples of Properties/C26.v *)
+Definition ex_hdr : rtp_hdr :=
+  mkHdr 2 true (Some (48862, [16; 170; 0; 0])) 2 [1; 2; 3; 4; 5; 6; 7; 8] true 97 513 90000 2222.
+
+Lemma ex_premises_ok :
+  hdr_ok ex_hdr /\ pad_ok ex_hdr (be_bytes 2 4660 ++ [9; 8; 7]) [0; 0; 3].
+Proof.
+  split.
+  - unfold hdr_ok, ex_hdr. cbn [h_ver h_cc h_csrc h_pt h_seq h_ts h_ssrc h_ext length].
+    repeat split; try lia; reflexivity.
+  - unfold pad_ok, ex_hdr. cbn [h_pad]. intros _. now exists [18; 52; 9; 8; 7; 0; 0].
+Qed.
